@@ -365,16 +365,15 @@ SetText(s, e, val) ==
           /\ val.v # CData(s, e).v
           /\ Lookup(s, md.v, SubSeq(ApiPath(s, s.n[e].par.v).v, 1, Len(ApiPath(s, s.n[e].par.v).v) - 1) \o <<val.v>>) # 0
        THEN {Fail(s, "DuplicateItemName")}
-  \* "F18" in KF: set_character_data on a Mixed element that has a sub-element replaces the whole content without
-  \* un-registering what is dropped (intended: refused, like the ElementRaw variant does)
-  ELSE IF "F18" \notin KF /\ KMode(k) = "Mixed" /\ (Len(Cont(s, e)) > 1 \/ (Len(Cont(s, e)) = 1 /\ Cont(s, e)[1].t = "e"))
-       THEN {Fail(s, "IncorrectContentType")}
   ELSE LET isSN == KName(k) = "SHORT-NAME" /\ HasCData(s, e) /\ s.n[e].par.t = "e"
            prev == IF isSN THEN ApiPath(s, s.n[e].par.v) ELSE [t |-> "ok", v |-> <<>>] IN
   IF prev.t = "err" THEN {Fail(s, prev.v)}
   ELSE LET oldref == IF KIsRef(k) /\ HasRefData(s, e) THEN <<CData(s, e).v>> ELSE <<>>
-           \* "F18" in KF: content of a Mixed element is cleared without un-registering dropped sub-elements
-           s1 == SetF(s, e, "cont", <<CItem(val)>>)
+           \* on an element with mixed content the whole content is replaced: its sub elements are removed from the model
+           \* (index, referrer lists, handles) like remove_sub_element does it
+           pe == PathUnchecked(s, e)
+           s0 == IF SubIds(s, e) # <<>> /\ pe.t = "ok" THEN RemoveInternalList(s, md.v, SubIds(s, e), pe.v) ELSE s
+           s1 == SetF(s0, e, "cont", <<CItem(val)>>)
            s2 == IF isSN THEN
                    LET np == ApiPath(s1, s.n[e].par.v) IN
                    IF np.t = "ok" THEN FixIdx(s1, md.v, prev.v, np.v) ELSE s1
